@@ -158,7 +158,10 @@ def run_tz(seed: int, tzname: str):
 
     env = dict(os.environ, TZ=tzname, PYTHONHASHSEED="0", PYTHONDONTWRITEBYTECODE="1")
     code = f"import sys; sys.path[:0] = [{TARGET!r}, {VERIF!r}]; from checks import c09; c09.tz_child({seed})"
-    r = subprocess.run([sys.executable, "-c", code], env=env, capture_output=True, text=True, timeout=600)
+    from mc import budget as _b
+
+    with _b.idle_ok():
+        r = subprocess.run([sys.executable, "-c", code], env=env, capture_output=True, text=True, timeout=600)
     line = next((ln for ln in r.stdout.splitlines() if ln.startswith("TZRESULT ")), None)
     if line is None:
         raise RuntimeError(f"tz child failed under TZ={tzname}: {r.stderr[-400:]}")
